@@ -596,6 +596,7 @@ static struct { int x __attribute__((aligned(64))); int y __attribute__((aligned
 		int z[2] __attribute__((aligned(64))); int go __attribute__((aligned(64)));
 		int done __attribute__((aligned(64))); } L;
 static int l_variant, l_r[2];
+static volatile int l_zero;	/* run-time zero operand: an RMW that changes nothing must still be a full barrier */
 static unsigned long l_rounds;
 
 static void *litmus_thread(void *arg)
@@ -612,6 +613,11 @@ static void *litmus_thread(void *arg)
 		case 2: (void) uatomic_cmpxchg(&L.z[t], uatomic_read(&L.z[t]), (int) r); break;
 		case 3: (void) uatomic_add_return(&L.z[t], 1); break;
 		case 4: (void) uatomic_sub_return(&L.z[t], 1); break;
+		case 5: (void) uatomic_add_return(&L.z[t], l_zero); break;
+		case 6: (void) uatomic_sub_return(&L.z[t], l_zero); break;
+		case 7: (void) uatomic_add_return(&L.z[t], 0); break;
+		case 8: (void) uatomic_cmpxchg(&L.z[t], -12345, (int) r); break;	/* comparison fails: still a barrier */
+		case 9: (void) uatomic_xchg(&L.z[t], 0); break;			/* stores the value already there */
 		default: break;
 		}
 		l_r[t] = uatomic_read(other);
@@ -625,10 +631,11 @@ static void *litmus_thread(void *arg)
 
 static void litmus(unsigned long rounds)
 {
-	static const char *vn[5] = { "plain", "xchg", "cmpxchg", "add_return", "sub_return" };
+	static const char *vn[10] = { "plain", "xchg", "cmpxchg", "add_return", "sub_return", "add_return(zero operand)",
+				      "sub_return(zero operand)", "add_return(constant 0)", "cmpxchg(failing)", "xchg(same value)" };
 	int v;
 	l_rounds = rounds;
-	for (v = 0; v < 5; v++) {
+	for (v = 0; v < 10; v++) {
 		pthread_t th[2];
 		unsigned long r, both0 = 0;
 		l_variant = v;
